@@ -304,6 +304,12 @@ def main(argv=None):
         rs, info = engine_f.run_builtins(prop, S, outdir)
         results += rs
         infos += info
+        rs, info = engine_f.run_errkind(prop, S, outdir)
+        results += rs
+        infos += info
+        rs, info = engine_f.run_maporder(prop, S, outdir)
+        results += rs
+        infos += info
     if "S" in engines:
         import engine_s
 
